@@ -64,7 +64,7 @@ fn main() {
         annotations: (0..na).map(|k| l(&format!("Ann{}", k))).collect(),
         rules: (0..nr).map(|r| ((0..ni).map(|_| l("<5")).collect(), (0..no).map(|_| l(&format!("{}", r))).collect(), (0..na).map(|_| l("note")).collect())).collect(),
       };
-      let style = Style { wide_first_data_column: flags.contains('w'), wide_all: false, name_box: if flags.contains('2') { 2 } else if flags.contains('1') { 1 } else { 0 }, merged_hit_policy_cell: flags.contains('m') };
+      let style = Style { wide_first_data_column: flags.contains('w'), wide_all: false, name_box: if flags.contains('2') { 2 } else if flags.contains('1') { 1 } else { 0 }, merged_hit_policy_cell: flags.contains('m') , merge_equal_entries: flags.contains('g') };
       match render(&t, &style) {
         Ok(text) => {
           println!("{}", text);
